@@ -58,17 +58,24 @@ P = {
          "C16_cross, C16_tower_iterated), C16_marginal_params, C16_joint_params, C16_conditional_is_condition_on_joint; C16_hetero_mean/cross/cov and C16_hetero_{marginal,joint,"
          "conditional}_params for every link whose expected noise is the expected link value (NoiseOK): noiseOK_exp, noiseOK_cosh, and — through the "
          "push-forward of p(x) to h = w'x + w0 (gaussProb_map_affine, by mgf uniqueness) and C20's truncated moments — noiseOK_heaviside, noiseOK_relu "
-         "(non-zero input weights; zero weights are the known finding hetero-trunc-degenerate). NOT proved: Fubini identification of the iterated "
-         "integrals with the joint law.", "§5 C16"),
- "C17": ("PARTIAL (known finding hetero-woodbury-Da>Dy). GT.Props.C17 + GT.Math.Bounds: C17_cov (all links, all shapes), "
-         "C17_precision_partial / C17_precision_square (Λ = Σ(x)⁻¹ and ln det under the decoupling hypothesis, which holds for Da = Dy), "
-         "C17_counterexample (the full statement is false for Dy=1, Da=2), C17_lower_bound_exp / _coshM1 (returned value ≤ true expectation, "
-         "for every value of the variational parameters, integrability proved), C17_tight_at_zero_weights. NOT proved: bounds of the step / ReLU links "
-         "(modelled in GT/Model/HeteroTrunc.lean, tied by correspondence, validated against piecewise quadrature; known finding "
-         "hetero-trunc-degenerate), the asymptotic quadratic decay of the gap (numerical test), anything for Da > Dy.", "§5 C17"),
+         "(non-zero input weights; zero weights are the known finding hetero-trunc-degenerate). GT.Props.C16Joint states the property at face value: "
+         "q_r(x,y) = p(y|x) p_r(x) is a probability density on R^(Dx+Dy) and the mu / Sigma of affine_marginal_transformation and of "
+         "affine_joint_transformation are the mean vector and covariance matrix of q_r (C16J_marginal_mean/_cov, C16J_joint_mean/_cov; "
+         "C16J_exp, C16J_coshM1, C16J_heaviside, C16J_relu; Tonelli/Fubini proved, heteroscedastic case under the decoupling hypothesis).", "§5 C16"),
+ "C17": ("PARTIAL (known findings hetero-woodbury-Da>Dy, hetero-trunc-degenerate). GT.Props.C17 + GT.Props.C17Trunc + GT.Math.Bounds: C17_cov (all "
+         "links, all shapes), C17_precision_partial / C17_precision_square (Λ = Σ(x)⁻¹ and ln det under the decoupling hypothesis, which holds for "
+         "Da = Dy), C17_counterexample (the full statement is false for Dy=1, Da=2), C17_lower_bound_exp / _coshM1 / _relu (returned value ≤ true "
+         "expectation, integrability proved; ReLU: both Dx branches, ω* ≥ 0 proved), C17_step_equality (step link: returned value = true expectation, "
+         "Dx = 1 and Dx > 1 branches, via conditioning g on h inside the Gaussian: gauss_condition_sq), C17_tight_at_zero_weights (exp, cosh−1). "
+         "Hypotheses of the step/ReLU theorems: non-zero input weights and a regular (g,h) covariance — exactly the complement of the known finding "
+         "hetero-trunc-degenerate. NOT proved: the asymptotic quadratic decay of the gap (numerical test), anything for Da > Dy beyond the _coded forms.", "§5 C17"),
  "C18": ("PARTIAL. GT.Props.C18: decide-theorems over the class table REGENERATED from /repo's source on every run (to_dict keys are "
-         "constructor fields, from_dict has to_dict, API classes present); C18_pdf_roundtrip (density rebuilt from its constructor fields "
-         "evaluates to the same function), C18_cond_roundtrip. jit/vmap/scan/grad transparency is validated by running pipelines, not proved.", "§5 C18"),
+         "constructor fields, from_dict has to_dict, API classes present); C18_pdf_roundtrip, C18_cond_roundtrip. GT.Props.C18Approx: an object "
+         "rebuilt by its constructor from its own constructor fields (what pytree unflatten, dataclasses.replace and from_dict do) is the SAME "
+         "structure — C18_pdf_roundtrip_eq, C18_feat_roundtrip (+ after update_Sigma, replace of kernel parameters), C18_hetero_roundtrip, "
+         "C18_trunc_measure_roundtrip / _pdf_roundtrip (+ nested rebuild of the inner measure), C18_trunc_getDensity_idem, C18_nn_roundtrip, and "
+         "slice with arange(R) is the identity (C18_*_slice_all). jit/vmap/scan/grad transparency is validated by running pipelines and "
+         "finite-difference gradient checks, not proved; the pytree machinery itself is modelled as a constructor call.", "§5 C18"),
  "C19": ("GT.Props.C19: C19_affine_image, C19_factor, C19_law (push-forward of the standard Gaussian under μ+Lξ is the measure with "
          "density N(μ,Σ)), C19_joint_law / C19_sample_law (mutual independence across draws and components), C19_mean_cov. The PRNG is a "
          "trusted primitive; the statistical clause is a test (thorough tier).", "§5 C19"),
